@@ -18,3 +18,39 @@ CHECKS["C19"] = {
     "assumptions": ["container/heap is trusted", "priorities are non-negative finite floats (Push panics on negatives by design)"],
     "min": {"any": {"pops_checked": 1000, "cases_with_reverse": 100}},
 }
+
+CHECKS["C01"] = {
+    "pkg": "./c01", "run": "^TestC01$", "level": "exploration",
+    "technique": "runtime monitor: reference map id->(vector,metadata) checked against every Search result over seeded insert/remove/update/snapshot histories",
+    "level_text": "Reference-model monitor over thousands (quick) to hundreds of thousands (thorough) of seeded histories with generated index parameters; every Search result is checked for liveness, metadata, bit-exact score, order, uniqueness, size and non-emptiness. Held means no observed result violated the property.",
+    "level_note": "Sequential histories on one index (concurrency is C13, dataset-level merge is C09); NaN-producing inputs excluded (C12); the index dump hook is used only to classify failures.",
+    "shards": {"quick": 8, "thorough": 16},
+    "timeout": {"quick": 600, "thorough": 3000},
+    "rule": "case c of VERIF_SEED = generated config (M 2..16, ef/efConstruction 1..40, simple/heuristic x extendCandidates x keepPruned, 3 metrics, dim 1..16, levels 0..5, integer or float coordinates) + history of <=60 ops (thorough also 2000-op histories) of insert / remove (biased to the entry point) / update / save+load, each followed by 1-3 searches (random, stored and just-removed queries, k in 1..n+2); non-trivial = >=1 successful removal and >=1 non-empty search result; distinct = digest of (config, op list)",
+    "assumptions": ["space.Distance is deterministic for identical arguments", "zero vectors under cosine excluded"],
+    "min": {"any": {"searches_checked": 10000, "removals": 1000}},
+}
+
+CHECKS["C07"] = {
+    "pkg": "./c07", "run": "^TestC07$", "level": "exploration",
+    "technique": "runtime monitor: brute-force ranking with the same space.Distance as oracle (bit-exact score sequence on small collections; mean recall@10 floor on large ones)",
+    "level_text": "Differential monitor against brute force: exact top-k (bitwise score sequence, ids modulo ties) for thousands of seeded insert-only collections within the small-collection bound, every k in 1..n+1, harness-chosen levels; mean recall@10 >= 0.8 over 200 queries on each of 2 (quick) / 6 (thorough) random collections of 2000-5000 vectors built with default parameters.",
+    "level_note": "Sampled point sets, orders and level assignments; the recall floor is a statistical statement about the collections built here (seeded, deterministic), not a bound for all data.",
+    "shards": {"quick": 8, "thorough": 16},
+    "timeout": {"quick": 600, "thorough": 3000},
+    "rule": "exactness: case c = generated config + insert-only collection of n<=2M+1 items (generic / clustered / collinear / duplicate points / all on one level; levels 0..6 chosen by the harness) with max(ef,k)>=n, 4 queries x every k in 1..n+1 compared with brute force; non-trivial = n>=3; recall: seeded uniform/normal collections, default parameters, real RandomLevel; distinct = digest of (config, insert list)",
+    "assumptions": ["ties between equal scores may permute ids", "zero vectors under cosine excluded"],
+    "min": {"any": {"exact_searches": 10000, "recall_collections": 1}},
+}
+
+CHECKS["C08"] = {
+    "pkg": "./c08", "run": "^TestC08$", "level": "exploration",
+    "technique": "runtime monitor: index dump before Save vs after Load (fresh and used targets) under counting/fragmenting readers with a sentinel tail",
+    "level_text": "Round-trip monitor over seeded reachable states (empty, never used, emptied, entry point handed over, tombstone links, metadata shapes incl. length-field limits), each loaded into a fresh and a used index through whole, 1-byte, random-chunk and single-split readers; compares full dumps (ids, bit-identical vectors, metadata, levels, live links with cached distances, entry point), counters, bytes consumed and allocation.",
+    "level_note": "Sampled states; every single split point is swept only for streams <= 4 KiB on a 1/16 subset of thorough cases; allocation bound is a coarse fixed multiple (512x stream + 1 MiB).",
+    "shards": {"quick": 8, "thorough": 16},
+    "timeout": {"quick": 600, "thorough": 3000},
+    "rule": "case c = generated config + history of <=50 inserts/removes/updates (or never-used / emptied), with or without header, plus 9 metadata shapes (none, 300 keys, 255/256-byte key, 65535/65536-byte value, 65536 pairs, non-UTF-8, empty strings); each state saved once and loaded through >=11 reader/target combinations; non-trivial = every case (each contributes >=1 checked load); distinct = digest of (config, ops, header, shape)",
+    "assumptions": ["the dump hook reads the index under the index's own locks"],
+    "min": {"any": {"loads_checked": 5000}},
+}
